@@ -17,8 +17,8 @@ import (
 
 //verif:include ../dnsdata/rdb/zz_verif_model.go
 //verif:include zz_verif_world.go
-//verif:harness H03_rdb property=C03 native=no quick=n=1,f0=4,cf=4,trunc=1,vsym=2,rel=0;n=1,f0=4,cf=4,trunc=0,vsym=2,rel=0;n=1,f0=6,cf=6,trunc=1,vsym=2,rel=0;n=1,f0=6,cf=4,trunc=1,vsym=2,rel=0;n=1,f0=4,cf=6,trunc=1,vsym=2,rel=0;n=2,f0=4,f1=4,cf=4,trunc=1,vsym=2,rel=2 thorough=n=2,f0=4,f1=4,cf=4,trunc=1,vsym=2,rel=1;n=1,f0=6,cf=6,trunc=0,vsym=16,rel=0;n=2,f0=4,f1=4,cf=4,trunc=0,vsym=2,rel=0;n=2,f0=4,f1=6,cf=4,trunc=1,vsym=2,rel=0;n=2,f0=4,f1=6,cf=6,trunc=1,vsym=2,rel=0;n=2,f0=6,f1=6,cf=6,trunc=1,vsym=2,rel=1
-//verif:harness H03_cdb property=C03 native=no quick=n=1,f0=4,cf=4,trunc=1,sep=0,vsym=2,rel=0;n=1,f0=4,cf=4,trunc=0,sep=0,vsym=2,rel=0;n=1,f0=6,cf=4,trunc=1,sep=0,vsym=2,rel=0;n=1,f0=6,cf=4,trunc=1,sep=1,vsym=2,rel=0 thorough=n=1,f0=6,cf=6,trunc=1,sep=0,vsym=2,rel=0;n=2,f0=4,f1=4,cf=4,trunc=1,sep=0,vsym=2,rel=1;n=2,f0=4,f1=6,cf=4,trunc=0,sep=1,vsym=2,rel=0;n=2,f0=4,f1=6,cf=4,trunc=1,sep=0,vsym=2,rel=0
+//verif:harness H03_rdb property=C03 native=no quick=n=1,f0=4,cf=46,trunc=0,vsym=2,rel=0;n=1,f0=4,cf=4,trunc=1,vsym=2,rel=0;n=1,f0=4,cf=4,trunc=0,vsym=2,rel=0;n=1,f0=6,cf=6,trunc=1,vsym=2,rel=0;n=1,f0=6,cf=4,trunc=1,vsym=2,rel=0;n=1,f0=4,cf=6,trunc=1,vsym=2,rel=0;n=2,f0=4,f1=4,cf=4,trunc=1,vsym=2,rel=2 thorough=n=2,f0=4,f1=4,cf=4,trunc=1,vsym=2,rel=1;n=1,f0=6,cf=6,trunc=0,vsym=16,rel=0;n=2,f0=4,f1=4,cf=4,trunc=0,vsym=2,rel=0;n=2,f0=4,f1=6,cf=4,trunc=1,vsym=2,rel=0;n=2,f0=4,f1=6,cf=6,trunc=1,vsym=2,rel=0;n=2,f0=6,f1=6,cf=6,trunc=1,vsym=2,rel=1
+//verif:harness H03_cdb property=C03 native=no quick=n=1,f0=6,cf=46,trunc=1,sep=1,vsym=2,rel=0;n=1,f0=4,cf=4,trunc=1,sep=0,vsym=2,rel=0;n=1,f0=4,cf=4,trunc=0,sep=0,vsym=2,rel=0;n=1,f0=6,cf=4,trunc=1,sep=0,vsym=2,rel=0;n=1,f0=6,cf=4,trunc=1,sep=1,vsym=2,rel=0 thorough=n=1,f0=4,cf=46,trunc=0,sep=0,vsym=2,rel=0;n=1,f0=6,cf=6,trunc=1,sep=0,vsym=2,rel=0;n=2,f0=4,f1=4,cf=4,trunc=1,sep=0,vsym=2,rel=1;n=2,f0=4,f1=6,cf=4,trunc=0,sep=1,vsym=2,rel=0;n=2,f0=4,f1=6,cf=4,trunc=1,sep=0,vsym=2,rel=0
 
 var verifV4Prefix = [12]byte{0, 0, 0, 0, 0, 0, 0, 0, 0, 0, 0xff, 0xff}
 
@@ -86,11 +86,17 @@ type verifClient struct {
 
 func verifSymbolicClient(fam int, truncated bool) verifClient {
 	var c verifClient
-	c.v4 = fam == 4
+	c.v4 = fam == 4 || fam == 46
 	raw := nd.Bytes(16)
 	p := int(nd.Byte())
 	bits := 128
-	if c.v4 {
+	if fam == 46 {
+		// an IPv4 client written in IPv6 form (a family-2 client-subnet option carrying
+		// ::ffff:a.b.c.d): the prefix length already counts 128 bits
+		nd.Assume(p >= 96 && p <= 128)
+		c.ones = p
+		copy(raw[:12], verifV4Prefix[:])
+	} else if c.v4 {
 		nd.Assume(p <= 32)
 		bits = 32
 		c.ones = 96 + p
